@@ -12,7 +12,8 @@
    S.release and its W.release; t_pend sleepers a notifier grabbed and has not yet collected;
    t_ntok tokens a notifier may still have outstanding; t_fh holds the flag. *)
 From Coq Require Import ZArith List Bool.
-From BV Require Import Model.SemProg Model.CondProg Proofs.SemProgProofs Proofs.CondProofs.
+From BV Require Import Model.SemProg Model.CondProg Proofs.SemProgProofs Proofs.CondProofs Proofs.CondLive
+  Proofs.CondWake Proofs.CondNotify.
 From BV Require Gen.P_cond.
 Import ListNotations.
 Open Scope Z_scope.
@@ -168,6 +169,136 @@ Theorem C17_event_flag_boolean : forall g, Reach g -> aflag g = 0 \/ aflag g = 1
 Proof. exact G_flag_01. Qed.
 Print Assumptions C17_event_flag_boolean.
 
+(* ================================================================== liveness side
+   (Proofs/CondLive.v, Proofs/CondWake.v).  Everything above that says "is woken" is
+   conditional on the notifier reaching the end of its call.  The statements below remove
+   that condition.  Vocabulary:
+     [Live g]   LOWER bound on the wake-up tokens: the acknowledgements a notifier is still
+                going to collect with its blocking acquire (t_low) are covered by the wait
+                semaphore + the woken count + the waiters standing at their acknowledgement
+                (t_a10); and the event flag is 1 while an Event.set is past its flag acquire.
+     [M g]      a variant, 64*(woken + 2*sleeping + wait_semaphore) + per-thread position
+                weights; EVERY step of EVERY thread decreases it.
+     [gstuck g] no thread has an enabled step (whatever the choice go / time out).
+     [at_ack t] notify at (1,12), notify_all at (2,18), Event.set at (4,20): the BLOCKING
+                _woken_count.acquire().
+     [sleeping t] an UNTIMED waiter standing at its acquire of the wait semaphore.
+     [in_nallx t] inside notify_all, or inside Event.set past its flag acquire (lock held).
+     [sleeping_at t] at the wait-semaphore acquire of Condition.wait (0,9) or Event.wait (6,13).
+     [awake_at t] at the lock re-acquisition after the acknowledgement, (0,13) / (6,17).
+     [at_end t] at the final lock release of notify (1,14) / notify_all (2,24) / set (4,26). *)
+
+(* the liveness invariant holds in every reachable state *)
+Theorem C17_live_invariant : forall g, Reach g -> Inv g /\ Live g.
+Proof. exact G_inv_live. Qed.
+Print Assumptions C17_live_invariant.
+
+(* PROGRESS: a notifier standing at its blocking acquire of _woken_count always has an enabled
+   thread next to it (itself, a waiter at its acknowledgement, or a thread of the wait window
+   that can take a token): the handshake cannot deadlock *)
+Theorem C17_progress : forall g n tn, Reach g ->
+    nth_error (thr g) n = Some tn -> at_ack tn = true ->
+    exists u, step P_cond.code g u true <> None.
+Proof. exact G_ack_progress. Qed.
+Print Assumptions C17_progress.
+
+(* EVERY schedule is finite, with an explicit bound: the number of executed steps is at most
+   the variant of the start state (no fairness assumption; [M g < 64 * SVM] says the system is
+   not astronomically large, and then no counter ever comes near SEM_VALUE_MAX) *)
+Theorem C17_every_schedule_finite : forall sched g g' es ok, Reach g -> M g < 64 * SVM ->
+    run P_cond.code g sched = (g', es, ok) ->
+    Z.of_nat (length es) + M g' <= M g /\ 0 <= M g' /\ small g'.
+Proof. exact G_run_bounded. Qed.
+Print Assumptions C17_every_schedule_finite.
+
+(* DEADLOCK CHARACTERISATION: when no thread can step, the lock is free, no notification is
+   in progress (wait semaphore 0, sleeping - woken = number of sleepers) and every thread is
+   finished, an untimed sleeper (waiting for a notify nobody is going to send), or blocked in a
+   user-level semaphore operation (client ids 7..14) *)
+Theorem C17_stuck_only_sleepers : forall g, Reach g -> gstuck g ->
+    vv 0 g = 1 /\ vv 3 g = 0 /\ vv 1 g - vv 2 g = sumz t_win (thr g) /\
+    forall t, In t (thr g) -> fin t = true \/ sleeping t \/ (7 <= cid t)%nat.
+Proof. exact G_stuck_sleepers. Qed.
+Print Assumptions C17_stuck_only_sleepers.
+
+Theorem C17_quiescence_reachable : forall g, Reach g -> M g < 64 * SVM ->
+    exists sched g2 es, run P_cond.code g sched = (g2, es, true) /\ gstuck g2.
+Proof. exact G_reaches_stuck. Qed.
+Print Assumptions C17_quiescence_reachable.
+
+(* no lost wake-up, trace form, for notify_all AND Event.set / Condition.wait AND Event.wait
+   (generalises C17_notify_all_wakes_trace): after an Event.set the flag is 1 as well *)
+Theorem C17_wakes_trace : forall sched g1 g2 es ok n j tn tu,
+    Reach g1 -> gen_run_small g1 sched -> run P_cond.code g1 sched = (g2, es, ok) -> n <> j ->
+    nth_error (thr g1) n = Some tn -> in_nallx tn = true ->
+    nth_error (thr g1) j = Some tu -> sleeping_at tu = true -> r0 (rg tu) = 0 ->
+    at_end (thread_at g2 n) = true -> results (thread_at g2 n) = results tn ->
+    awake_at (thread_at g2 j) = true /\
+    cur (thread_at g2 j) = cur tu /\ results (thread_at g2 j) = results tu /\
+    (cid tu = 0%nat -> pending (thread_at g2 j) = Some 1) /\
+    (cid tn = 4%nat -> aflag g2 = 1).
+Proof. exact G_wakes_trace_x. Qed.
+Print Assumptions C17_wakes_trace.
+
+(* NO LOST WAKE-UP, UNCONDITIONAL.  Thread n is inside notify_all / Event.set and thread j is
+   an untimed waiter blocked on the wait semaphore in g1.  Then (1) every schedule from g1
+   executes at most [M g1] steps, and (2) in EVERY state reached from g1 in which no thread
+   can step any more, the notifier has returned None from that call and the waiter has
+   returned from that wait call -- True for a Condition.wait.  Nobody sleeps forever. *)
+Theorem C17_no_lost_wakeup : forall sched g1 g2 es ok n j tn tu,
+    Reach g1 -> M g1 < 64 * SVM -> run P_cond.code g1 sched = (g2, es, ok) -> n <> j ->
+    nth_error (thr g1) n = Some tn -> in_nallx tn = true ->
+    nth_error (thr g1) j = Some tu -> sleeping_at tu = true -> r0 (rg tu) = 0 ->
+    Z.of_nat (length es) <= M g1 /\
+    (gstuck g2 ->
+     (exists l, results (thread_at g2 n) = l ++ (cur tn, V_NONE) :: results tn) /\
+     (exists l v, results (thread_at g2 j) = l ++ (cur tu, v) :: results tu /\
+                  (v = 0 \/ v = 1) /\ (cid tu = 0%nat -> v = 1))).
+Proof. exact G_wakes_uncond_x. Qed.
+Print Assumptions C17_no_lost_wakeup.
+
+(* ... and there is a schedule on which the notify_all / set finishes and EVERY untimed waiter
+   present returns *)
+Theorem C17_wake_schedule_exists : forall g1 n tn,
+    Reach g1 -> M g1 < 64 * SVM -> nth_error (thr g1) n = Some tn -> in_nallx tn = true ->
+    exists sched g2 es, run P_cond.code g1 sched = (g2, es, true) /\ gstuck g2 /\
+      (exists l, results (thread_at g2 n) = l ++ (cur tn, V_NONE) :: results tn) /\
+      forall j tu, n <> j -> nth_error (thr g1) j = Some tu -> sleeping_at tu = true -> r0 (rg tu) = 0 ->
+        exists l v, results (thread_at g2 j) = l ++ (cur tu, v) :: results tu /\
+                    (v = 0 \/ v = 1) /\ (cid tu = 0%nat -> v = 1).
+Proof. exact G_wake_schedule_exists. Qed.
+Print Assumptions C17_wake_schedule_exists.
+
+(* notify, trace form: notify has just taken the lock and thread j, untimed and blocked on
+   the wait semaphore, is the ONLY thread between announcement and acknowledgement; when
+   notify stands at its final lock release, thread j has been woken *)
+Theorem C17_notify_one_trace : forall sched g1 g2 es ok n j tn tu,
+    Reach g1 -> gen_run_small g1 sched -> run P_cond.code g1 sched = (g2, es, ok) -> n <> j ->
+    nth_error (thr g1) n = Some tn -> at_ tn 1 2 = true ->
+    nth_error (thr g1) j = Some tu -> sleeping_at tu = true -> r0 (rg tu) = 0 ->
+    sumz t_win (thr g1) = 1 ->
+    at_ (thread_at g2 n) 1 14 = true -> results (thread_at g2 n) = results tn ->
+    awake_at (thread_at g2 j) = true /\
+    cur (thread_at g2 j) = cur tu /\ results (thread_at g2 j) = results tu /\
+    (cid tu = 0%nat -> pending (thread_at g2 j) = Some 1).
+Proof. exact G_notify_one_trace. Qed.
+Print Assumptions C17_notify_one_trace.
+
+(* ... and unconditionally: the single sleeper has returned (True) in every state without
+   enabled threads *)
+Theorem C17_notify_one_wakes : forall sched g1 g2 es ok n j tn tu,
+    Reach g1 -> M g1 < 64 * SVM -> run P_cond.code g1 sched = (g2, es, ok) -> n <> j ->
+    nth_error (thr g1) n = Some tn -> at_ tn 1 2 = true ->
+    nth_error (thr g1) j = Some tu -> sleeping_at tu = true -> r0 (rg tu) = 0 ->
+    sumz t_win (thr g1) = 1 ->
+    Z.of_nat (length es) <= M g1 /\
+    (gstuck g2 ->
+     (exists l, results (thread_at g2 n) = l ++ (cur tn, V_NONE) :: results tn) /\
+     (exists l v, results (thread_at g2 j) = l ++ (cur tu, v) :: results tu /\
+                  (v = 0 \/ v = 1) /\ (cid tu = 0%nat -> v = 1))).
+Proof. exact G_notify_one_uncond. Qed.
+Print Assumptions C17_notify_one_wakes.
+
 (* non-vacuity: a reachable state with an untimed waiter blocked (thread 0), a timed waiter
    that gave up and has not acknowledged yet, and a notify_all holding two sleepers and two
    outstanding tokens *)
@@ -176,3 +307,26 @@ Example C17_witness :
   sumz t_win (thr ex_state) = 2 /\ sumz t_pend (thr ex_state) = 2 /\
   exists t, nth_error (thr ex_state) 0 = Some t /\ at_ t 0 9 = true /\ r0 (rg t) = 0.
 Proof. exact ex_witness. Qed.
+
+(* non-vacuity of the liveness statements: in [ex_state] the notify_all stands at its blocking
+   acquire of the woken count with an untimed sleeper present; M is far below the bound; on
+   the given schedule everybody returns (untimed wait True, timed-out wait False) and the
+   final state has no enabled thread *)
+Example C17_live_witness :
+  Reach ex_state /\ M ex_state < 64 * SVM /\
+  (exists t, nth_error (thr ex_state) 2 = Some t /\ at_ack t = true /\ in_nallx t = true) /\
+  (exists t, nth_error (thr ex_state) 0 = Some t /\ sleeping_at t = true /\ r0 (rg t) = 0) /\
+  snd (run P_cond.code ex_state ex_fin_sched) = true /\ stuckb ex_fin_state = true /\
+  map results (thr ex_fin_state) =
+    [[((0%nat, 0, 0), 1)]; [((0%nat, 1, 0), 0)]; [((2%nat, 0, 0), V_NONE)]].
+Proof. exact ex_live_witness. Qed.
+
+(* non-vacuity of C17_notify_one_trace: a reachable state satisfying its hypotheses, and the
+   conclusion observed on a concrete schedule *)
+Example C17_notify_one_witness :
+  Reach ex1_g1 /\ gen_run_small ex1_g1 ex1_sched2 /\ sumz t_win (thr ex1_g1) = 1 /\
+  (exists t, nth_error (thr ex1_g1) 1 = Some t /\ at_ t 1 2 = true) /\
+  (exists t, nth_error (thr ex1_g1) 0 = Some t /\ sleeping_at t = true /\ r0 (rg t) = 0) /\
+  at_ (thread_at ex1_g2 1) 1 14 = true /\ at_ (thread_at ex1_g2 0) 0 13 = true /\
+  pending (thread_at ex1_g2 0) = Some 1.
+Proof. exact ex1_witness. Qed.
